@@ -297,12 +297,35 @@ def case_bdb(rng):
                 nontrivial=len(log) > 0)
 
 
+def case_bezier(rng):
+    sp = _mods()[6]
+    n = rng.choice([2, 3, 4, 5, 6, 7, 9, 12, 16])
+    k = rng.choice([2, 3, 4, 4, 5, 6, n, n])
+    k = max(2, min(k, n))
+    idx = sorted(rng.sample(range(n), k))
+    kind = rng.choice(['uniform', 'gaps', 'dup', 'random'])
+    if kind == 'uniform':
+        x = np.arange(n, dtype=float)
+    elif kind == 'gaps':
+        x = np.cumsum([rng.choice([0.1, 1.0, 1.0, 5.0, 30.0]) for _ in range(n)])
+    elif kind == 'dup':
+        x = np.sort(np.array([float(rng.randint(0, 3)) for _ in range(n)]))
+    else:
+        x = np.sort(np.array([rng.uniform(0, 10) for _ in range(n)]))
+    y = np.array([rng.uniform(0, 5) for _ in range(n)])
+    X, Y = T.arr(np.asarray(x, dtype=float), 'x'), T.arr(y, 'y')
+    I = T.arr(np.array(idx, dtype=np.intp), 'indices')
+    res, log, cmp_ = T.run(sp._quadratic_bezier_spline, ['output'], X, Y, I)
+    term = f'cs (bezier {n} {n} {zlist(idx)}) {bools(cmp_)} {zlist2(log)}'
+    return Case('_quadratic_bezier_spline', ('bz', n, tuple(idx), tuple(cmp_)), term, res, log, nontrivial=k >= 4)
+
+
 GENS = [('find_interval', case_find_interval, 60, 600), ('de_boor', case_de_boor, 40, 400),
         ('design', case_design, 25, 250), ('btb', case_btb, 25, 250),
         ('determine_fits', case_df, 120, 1500), ('loess', case_loess, 60, 600),
         ('fill_skips', case_fill_skips, 30, 300), ('interp', case_interp, 9, 20),
         ('dmma', case_dmma, 80, 800), ('rolling_std', case_rolling_std, 30, 300),
-        ('bdb', case_bdb, 40, 400)]
+        ('bdb', case_bdb, 40, 400), ('bezier', case_bezier, 50, 600)]
 
 
 def correspondence(ctx):
@@ -434,7 +457,8 @@ def caller_correspondence(ctx):
                         # the rest of the schedule is the sampled library contract 1 <= h <= first
                         firsts = ks[0]
                         lits.append(f'((pf_call_args {secs} {hws[0]} {firsts[1] - secs}) =? {firsts[3]}) && '
-                                    f'({firsts[2]} =? {secs})')
+                                    f'({firsts[2]} =? {secs}) && ((pf_y_len {secs} {firsts[1] - secs} 0) =? {firsts[1]})'
+                                    f' && ({firsts[1] - secs} <=? 2) && (0 <=? {firsts[1] - secs})')
                         for r in ks:
                             if not (r[1] >= r[2] >= 1 and 1 <= r[3] <= max(firsts[3], 1)):
                                 ctx.fail('peak_filling:schedule', f'peak_filling(N={N}, sections={sections}, '
@@ -494,9 +518,73 @@ def caller_correspondence(ctx):
             ctx.case(('knots', degree, num_knots), True, kind='caller:spline')
             lits.append(f'((spline_nk {num_knots} {degree}) =? {len(knots)}) && ((spline_nk {num_knots} {degree}) =? {len(knots2)})'
                         f' && ({len(data)} =? {len(x)} * ({degree} + 1))')
+    # _padded_rolling_std: length of the padded array handed to the kernel, also for half windows >= n
+    rec3 = []
+    orig_rs = cl._rolling_std
+
+    def spy_rs(data, half_window, ddof):
+        rec3.append((len(data), int(half_window)))
+        raise _Reached()
+    cl._rolling_std = spy_rs
+    try:
+        for n in range(1, ctx.n(9, 20)):
+            for hw in range(0, 2 * n + 4):
+                del rec3[:]
+                try:
+                    cl._padded_rolling_std(np.arange(n, dtype=float), hw, 1)
+                except _Reached:
+                    pass
+                except Exception:  # noqa
+                    continue
+                if rec3:
+                    ctx.case(('prs', n, hw), True, kind='caller:padded_rolling_std')
+                    lits.append(f'((padded_len {n} {hw}) =? {rec3[0][0]}) && ({rec3[0][1]} =? {hw})')
+    finally:
+        cl._rolling_std = orig_rs
+
+    # _find_peak_segments: model against implementation on random masks (exact)
+    for _ in range(ctx.n(150, 1500)):
+        n = rng.choice([1, 2, 3, 4, 5, 6, 8, 11, 15])
+        pr = rng.choice([0.2, 0.5, 0.8])
+        mask = [rng.random() < pr for _ in range(n)]
+        st, en = cl._find_peak_segments(np.array(mask, dtype=bool))
+        segs = [[int(a), int(b)] for a, b in zip(st, en)]
+        ctx.case(('fps', tuple(mask)), any(mask) and not all(mask), kind='caller:find_peak_segments')
+        lits.append(f'zll_eqb (pl (find_peak_segments {bools(mask)})) {zlist2(segs)}')
+
+    # corner_cutting: what reaches the kernel (np.flatnonzero contract: strictly increasing, in range)
+    rec4 = []
+    orig_bz = sp._quadratic_bezier_spline
+
+    def spy_bz(x, y, indices):
+        rec4.append((len(x), len(y), [int(v) for v in indices]))
+        raise _Reached()
+    sp._quadratic_bezier_spline = spy_bz
+    try:
+        for N in (2, 3, 4, 5, 8, 13, 30):
+            for mi in (1, 3, 100):
+                del rec4[:]
+                y = np.array([rng.uniform(0, 1) + 3 * math.exp(-0.5 * ((i - N / 2) / 1.5) ** 2) for i in range(N)])
+                with warnings.catch_warnings():
+                    warnings.simplefilter('ignore')
+                    try:
+                        Baseline(np.arange(N, dtype=float)).corner_cutting(y, max_iter=mi)
+                    except _Reached:
+                        pass
+                    except Exception:  # noqa
+                        continue
+                if rec4:
+                    nx_, ny_, idx = rec4[0]
+                    ctx.case(('cc', N, mi, tuple(idx)), True, kind='caller:corner_cutting')
+                    okc = nx_ == ny_ == N and all(0 <= v < N for v in idx) and all(a < b for a, b in zip(idx, idx[1:]))
+                    if not okc:
+                        ctx.broke('correspondence:callers', f'corner_cutting(N={N}) handed (len x, len y, indices) = {rec4[0]} to the kernel')
+    finally:
+        sp._quadratic_bezier_spline = orig_bz
+
     text = HEADER + 'From PB Require Import gen.GenKernels.\nDefinition cases : list bool := [\n' + \
         ';\n'.join('  ' + t for t in lits) + '\n].\nEval vm_compute in (bad (fun b : bool => b) cases).\n'
-    ob = 'correspondence:caller-arguments(peak_filling,loess,spline)'
+    ob = 'correspondence:caller-arguments(peak_filling,loess,spline,padded_rolling_std,find_peak_segments,corner_cutting)'
     ctx.obligations.append(ob)
     vals = ctx.coq_eval('callers', text)
     if vals is not None:
@@ -652,7 +740,9 @@ def run(ctx):
         'harness/c05_trace.py: the logging ndarray / float subclasses and the re-binding of kernel globals '
         '(np allocators, callee kernels, _loess_solver stub) faithfully execute kernel.py_func',
         'library contracts taken as hypotheses: len(_spline_knots) and csr data length (sampled), '
-        'ceil(logspace(log10(h),0,m)) in [1,h] for h>=1 (sampled), np.argmin in range',
+        'ceil(logspace(log10(h),0,m)) in [1,h] for h>=1 (sampled), np.argmin in [0,n) (oracle-chosen in the model), '
+        'np.flatnonzero strictly increasing in range (sampled), lengths of np.pad/np.concatenate/np.linspace/np.repeat/'
+        'np.percentile/np.empty results as translated by tools/gen_kernels.py len_expr (sampled)',
     ]
     ctx.gate()
     ctx.translate(['GenKernels'])
@@ -668,7 +758,7 @@ def run(ctx):
         budget = 2
     found = oracle(ctx, budget)
     ctx.note(f'direct oracle budget x{budget}: {found} failing public calls')
-    ctx.note('not covered: _quadratic_bezier_spline has no Coq model (oracle + skeleton only); 2-D (two_d/) callers; '
+    ctx.note('not covered: 2-D (two_d/) callers; beads band-array shapes (hypothesis); '
              'numba typing errors; trace cases use N <= 17')
 
 
